@@ -185,6 +185,7 @@ fn would_block(g: &Inner, tid: usize) -> bool {
 pub fn run_program(pid: u64, prog: &Value) -> Vec<Value> {
   let mut recs = vec![];
   recs.push(json!({"op": "conc_begin", "pid": pid, "oc": "ok",
+                   "probe": prog["probe"].as_bool().unwrap_or(false),
                    "model": prog["model"].clone(),
                    "schedule": prog["schedule"].as_array().cloned().unwrap_or_default()}));
   let mut machine = Machine::new();
@@ -232,6 +233,10 @@ pub fn run_program(pid: u64, prog: &Value) -> Vec<Value> {
   let mut extra = 0usize;
   let mut outcome = "completed";
   let mut last_progress = Instant::now();
+  // refusal probing: release threads the model says cannot move (they want a
+  // shard lock somebody holds) and see that they really wait
+  let probe = prog["probe"].as_bool().unwrap_or(false);
+  let mut probed: Option<usize> = None;
   loop {
     let mut g = s.m.lock().unwrap();
     // wait until nobody is running (blocked threads do not count)
@@ -248,6 +253,10 @@ pub fn run_program(pid: u64, prog: &Value) -> Vec<Value> {
       }
       let (ng, _) = s.cv.wait_timeout(g, deadline - now).unwrap();
       g = ng;
+    }
+    if let Some(t) = probed.take() {
+      let waited = g.status[t] == Status::Blocked;
+      g.log.push(json!({"op": "probe", "t": t, "waited": waited}));
     }
     if g.status.iter().all(|st| *st == Status::Done) {
       break;
@@ -287,8 +296,12 @@ pub fn run_program(pid: u64, prog: &Value) -> Vec<Value> {
     } else {
       extra += 1;
       let free: Vec<usize> = parked.iter().copied().filter(|t| !would_block(&g, *t)).collect();
-      let pool = if free.is_empty() { &parked } else { &free };
-      pool[rng.gen_range(0..pool.len())]
+      let pool = if free.is_empty() || probe { &parked } else { &free };
+      let c = pool[rng.gen_range(0..pool.len())];
+      if probe && would_block(&g, c) {
+        probed = Some(c);
+      }
+      c
     };
     g.status[choice] = Status::Running;
     g.turn = Some(choice);
